@@ -470,4 +470,14 @@ theorem C20_front_disk_io_kwargs (perdisk : Bool) :
     frontDiskCacheName true ≠ frontDiskCacheName false := by
   refine ⟨rfl, rfl, by decide⟩
 
+/-- proof obligations on the translator's facts (fixes 61843a1 and 4481769 landed): Windows `ppid()`
+    is decorated and `memory_maps()` converts errors raised inside its loop -/
+theorem cfg_win_ppid_wrapped : nameWrapped .windows "ppid" = true := by decide
+theorem cfg_win_maps_loop_guarded : cfg.winMapsLoopGuarded = true := by decide
+
+/-- **C20_method_faults_within_spec_code.** The full statement — no call site excluded — for the code
+    as it is now. -/
+theorem C20_method_faults_within_spec_code : C20_method_faults_within_spec_Full :=
+  C20_method_faults_full_when_repaired cfg_win_ppid_wrapped cfg_win_maps_loop_guarded
+
 end Psutil.C20
